@@ -78,6 +78,23 @@ def vary_index(df, k):
     return out
 
 
+def repeat_labels(df, k):
+    """The same table with REPEATED row labels: Motl(df) does not reset the index, so a list built with
+    pd.concat([t1, t2]) (without ignore_index) or sliced from a frame with a constant index is a valid input
+    (k % 3: 0 unchanged; 1 labels restart in the middle, as after a concat of two frames; 2 all labels equal)."""
+    n = len(df)
+    mode = k % 3
+    if n < 2 or mode == 0:
+        return df
+    out = df.copy()
+    if mode == 1:
+        m = max(1, n // 2)
+        out.index = list(range(m)) + list(range(n - m))
+    else:
+        out.index = [0] * n
+    return out
+
+
 def vary_columns(df, k):
     """The same table with another COLUMN order: Motl(df) accepts any order of the 20 named columns (a dict-built,
     alphabetically sorted or user-reordered frame), so every operation must address fields by name
